@@ -86,6 +86,222 @@ static Job shared_job(const std::string& name, const std::string& kind, std::sha
     return j;
 }
 
+//---- cold-start phase: free functions and distinct objects used concurrently BEFORE any sequential reference exists ---------
+// Lazily built process-wide state (tables grown on first use, memoised designs) is only racy the first time it is needed, so this
+// phase runs first in the process, in steps of growing argument magnitude; every thread's results are compared afterwards with the
+// same calls made sequentially.
+using Flat = std::vector<double>;
+static Flat flat(const arr_real& a) {
+    return a.to_vec();
+}
+static Flat flat(const arr_cmplx& a) {
+    Flat f;
+    for (int i = 0; i < a.size(); ++i) {
+        f.push_back(a[i].re);
+        f.push_back(a[i].im);
+    }
+    return f;
+}
+
+struct ZooCall
+{
+    std::string name;
+    std::function<Flat()> fn;
+};
+
+static std::vector<ZooCall> make_zoo(int step) {
+    std::vector<ZooCall> z;
+    static const std::vector<std::vector<uint32_t>> mags = {
+      {65537u, 66049u, 67591u, 69169u, 63001u, 70001u},
+      {1000003u, 1018081u, 999983u, 1022117u, 1000001u},
+      {100000007u, 100140049u, 99999989u, 100160063u, 100000001u},
+      {2147483647u, 2147117569u, 4294967291u, 4293001441u, 4294967295u, 3215031751u},
+    };
+    const auto& ns = mags[size_t(step) % mags.size()];
+    for (uint32_t n : ns) {
+        z.push_back({vh::fmt("isprime(%u)", n), [n] { return Flat{double(dl::isprime(n))}; }});
+        z.push_back({vh::fmt("factor(%u)", n), [n] {
+                         Flat f;
+                         for (auto p : dl::factor(n)) {
+                             f.push_back(double(p));
+                         }
+                         return f;
+                     }});
+        if (n <= 4294967291u) {
+            z.push_back({vh::fmt("nextprime(%u)", n), [n] { return Flat{double(dl::nextprime(n))}; }});
+        }
+    }
+    const int pn = 5000 * (step + 1) + 17;
+    z.push_back({vh::fmt("primes(%d)", pn), [pn] {
+                     Flat f;
+                     for (auto p : dl::primes(uint32_t(pn))) {
+                         f.push_back(double(p));
+                     }
+                     return f;
+                 }});
+    //transforms whose plans need new factorizations (prime-square and large-prime lengths)
+    const int fn_[4] = {66049 / 257 * 263, 1009 * 3, 10007, 257 * 257};
+    const int fl = fn_[step % 4];
+    z.push_back({vh::fmt("fft(len %d)", fl), [fl] {
+                     vh::Rng r{uint64_t(fl)};
+                     return flat(dl::fft(gauss_cmplx(r, fl)));
+                 }});
+    z.push_back({vh::fmt("rfft(len %d)", fl + 1), [fl] {
+                     vh::Rng r{uint64_t(fl) + 5};
+                     return flat(dl::rfft(gauss_real(r, fl + 1)));
+                 }});
+    //design / analysis functions and distinct processor objects
+    const int k = step;
+    z.push_back({"kaiser", [k] { return flat(dl::window::kaiser(101 + k, 7.5 + k)); }});
+    z.push_back({"windows", [k] { return flat(dl::window::hann(64 + k) | dl::window::blackmanharris(33 + k) | dl::window::tukey(40 + k, 0.3) | dl::window::gauss(50, 2.5)); }});
+    z.push_back({"fir1", [k] { return flat(dl::fir1(40 + 2 * k, 0.3)); }});
+    z.push_back({"fir1_bandpass", [k] { return flat(dl::fir1(32 + 2 * k, 0.2, 0.6, dl::FilterType::Bandpass)); }});
+    z.push_back({"design_multirate_fir", [k] { return flat(dl::design_multirate_fir(3 + k, 2)); }});
+    z.push_back({"resample", [k] {
+                     vh::Rng r(11 + k);
+                     return flat(dl::resample(gauss_real(r, 300), 3 + k, 2));
+                 }});
+    z.push_back({"welch", [k] {
+                     vh::Rng r(12 + k);
+                     return flat(dl::welch(gauss_real(r, 1000), 64).pxx);
+                 }});
+    z.push_back({"xcorr", [k] {
+                     vh::Rng r(13 + k);
+                     return flat(dl::xcorr(gauss_real(r, 100 + k), gauss_real(r, 37)));
+                 }});
+    z.push_back({"hilbert", [k] {
+                     vh::Rng r(14 + k);
+                     return flat(dl::hilbert(gauss_real(r, 200 + k)));
+                 }});
+    z.push_back({"medfilt_sort_median", [k] {
+                     vh::Rng r(15 + k);
+                     arr_real x = gauss_real(r, 101 + k);
+                     Flat f = flat(dl::medfilt(x, 5));
+                     f.push_back(dl::median(x));
+                     const auto sp = dl::sort(x);
+                     for (int i = 0; i < sp.first.size(); ++i) {
+                         f.push_back(sp.first[i]);
+                         f.push_back(double(sp.second[i]));
+                     }
+                     return f;
+                 }});
+    z.push_back({"corr_kendall", [k] {
+                     vh::Rng r(16 + k);
+                     return Flat{dl::corr(gauss_real(r, 60), gauss_real(r, 60), dl::Correlation::Kendall)};
+                 }});
+    z.push_back({"finddelay", [k] {
+                     vh::Rng r(17 + k);
+                     const arr_real x = gauss_real(r, 256);
+                     return Flat{double(dl::finddelay(x, dl::delayseq(x, 7 + k)))};
+                 }});
+    z.push_back({"FirFilter+FftFilter objects", [k] {
+                     vh::Rng r(18 + k);
+                     const arr_real h = gauss_real(r, 21);
+                     const arr_real x = gauss_real(r, 400);
+                     dl::FirFilterR f(h);
+                     dl::FftFilter g(h);
+                     return flat(f.process(x) | g.process(x));
+                 }});
+    z.push_back({"HilbertFilter+Tuner+Agc objects", [k] {
+                     vh::Rng r(19 + k);
+                     const arr_real x = gauss_real(r, 500);
+                     dl::HilbertFilter hf(51, 0.05);
+                     dl::Tuner tn(8000, 1234.5);
+                     dl::Agc agc;
+                     return flat(tn.process(hf.process(x)) | dl::complex(agc.process(x).out));
+                 }});
+    z.push_back({"resampler objects", [k] {
+                     vh::Rng r(20 + k);
+                     dl::FIRRateConverter rc(3 + k, 2);
+                     dl::FIRDecimator dc(3);
+                     dl::FIRInterpolator ip(2 + k);
+                     const arr_real x = gauss_real(r, 240);
+                     return flat(rc.process(x) | dc.process(x) | ip.process(x));
+                 }});
+    z.push_back({"thd_sinad", [k] {
+                     arr_real x(4096);
+                     for (int i = 0; i < 4096; ++i) {
+                         x[i] = std::sin(2 * 3.14159265358979 * (200.0 + k) * i / 4096) + 0.01 * std::sin(2 * 3.14159265358979 * 2 * (200.0 + k) * i / 4096);
+                     }
+                     return Flat{dl::thd(x).value, dl::sinad(x)};
+                 }});
+    return z;
+}
+
+struct ColdOutcome
+{
+    uint64_t calls{0};
+    uint64_t mismatches{0};
+    uint64_t exceptions{0};
+    std::string first;
+};
+
+static ColdOutcome cold_phase(int T, int steps, uint64_t seed) {
+    ColdOutcome out;
+    for (int step = 0; step < steps; ++step) {
+        const std::vector<ZooCall> zoo = make_zoo(step);
+        std::vector<std::vector<Flat>> got(T, std::vector<Flat>(zoo.size()));
+        std::vector<std::vector<int>> threw(T, std::vector<int>(zoo.size(), 0));
+        Barrier bar(T);
+        std::vector<std::thread> th;
+        for (int t = 0; t < T; ++t) {
+            th.emplace_back([&, t] {
+                vh::Rng tr(seed + 1000003ULL * uint64_t(step) + uint64_t(t));
+                //every thread runs every call, in its own random order
+                std::vector<int> order(zoo.size());
+                for (size_t i = 0; i < order.size(); ++i) {
+                    order[i] = int(i);
+                }
+                for (size_t i = order.size(); i > 1; --i) {
+                    std::swap(order[i - 1], order[tr.below(i)]);
+                }
+                bar.wait();
+                for (int i : order) {
+                    try {
+                        got[t][i] = zoo[i].fn();
+                    } catch (const std::exception&) {
+                        threw[t][i] = 1;
+                    }
+                }
+            });
+        }
+        for (auto& t : th) {
+            t.join();
+        }
+        //sequential references, computed only now
+        for (size_t i = 0; i < zoo.size(); ++i) {
+            Flat want;
+            bool want_threw = false;
+            try {
+                want = zoo[i].fn();
+            } catch (const std::exception&) {
+                want_threw = true;
+            }
+            for (int t = 0; t < T; ++t) {
+                ++out.calls;
+                if (threw[t][i] != int(want_threw)) {
+                    ++out.exceptions;
+                    if (out.first.empty()) {
+                        out.first = vh::fmt("step %d: %s %s in a thread but %s sequentially", step, zoo[i].name.c_str(), threw[t][i] ? "threw" : "returned", want_threw ? "threw" : "returned");
+                    }
+                    continue;
+                }
+                bool same = got[t][i].size() == want.size();
+                for (size_t k = 0; same && k < want.size(); ++k) {
+                    same = std::memcmp(&got[t][i][k], &want[k], sizeof(double)) == 0;
+                }
+                if (!same) {
+                    ++out.mismatches;
+                    if (out.first.empty()) {
+                        out.first = vh::fmt("step %d: %s returned a different result when %d threads made their first calls at once than sequentially afterwards", step, zoo[i].name.c_str(), T);
+                    }
+                }
+            }
+        }
+    }
+    return out;
+}
+
 static bool is_pow2(int n) {
     return (n & (n - 1)) == 0;
 }
@@ -253,6 +469,20 @@ int main(int argc, char** argv) {
     const int iters = int((thorough ? 1500 : 1000) * scale);
     std::map<std::string, uint64_t> overlaps_by_kind;
     std::map<std::string, uint64_t> calls_by_kind;
+    //cold start first: nothing of the library has run in this process yet
+    {
+        const int T = 4 + (vh::g.shard % 3) * 4;   //4, 8 or 12 threads depending on the shard
+        vh::begin_case("cold_start", "threads=%d steps=4", T);
+        const ColdOutcome co = cold_phase(T, 4, vh::g.seed * 7919ULL + uint64_t(vh::g.shard));
+        vh::Hasher hc;
+        hc.s("cold").i(vh::g.shard).i(T);
+        vh::count(hc.get(), true);
+        vh::obs_add("cold_start_calls_compared", double(co.calls));
+        if (co.mismatches || co.exceptions) {
+            vh::violation("C09/cold_start/result", vh::fmt("%llu of %llu first-use calls differ from the sequential result (%llu exception mismatches); first: %s", (unsigned long long)co.mismatches,
+                                                           (unsigned long long)co.calls, (unsigned long long)co.exceptions, co.first.c_str()));
+        }
+    }
     //reference for never-seeding threads: first draws of a fresh thread in a process where nobody has seeded yet
     std::vector<double> default_seq;
     {
